@@ -280,12 +280,11 @@ def rule_sentinel(rep: Report, cu: CUnit) -> None:
               f'{sh}', cu.site(cu.func('flat_is_garbage')), expected=f'(w<=32) ? value & bit63 : value == magic')
     # fill in mem_decide_storage
     fill = None
-    for n in walk(cu.body('mem_decide_storage')):
-        if n.get('kind') == 'VarDecl' and n.get('name') == 'garbage_fill':
-            init = [c for c in n['inner'] if isinstance(c, dict) and c.get('kind')][-1]
-            ir = c_ir(init, cu.src_of)
-            if ir[0] == 'cond' and ir[1][0] == 'cmp' and ir[1][1] == ['<='] and ir[1][2][1] == ('num', 32):
-                fill = (lx.to_lin(ir[2], Env({})).get(''), lx.to_lin(ir[3], Env({})).get(''))
+    fl = _locate_fill(cu)
+    init = [c for c in fl['decl']['inner'] if isinstance(c, dict) and c.get('kind')][-1]
+    ir = c_ir(init, cu.src_of)
+    if ir[0] == 'cond' and ir[1][0] == 'cmp' and ir[1][1] == ['<='] and ir[1][2][1] == ('num', 32):
+        fill = (lx.to_lin(ir[2], Env({})).get(''), lx.to_lin(ir[3], Env({})).get(''))
     rep.check(fill == (SENT, MAGIC), 'C07.SENTINEL', 'mem_decide_storage:fill', f'fills with {fill}',
               cu.site(cu.func('mem_decide_storage')), expected=f'({SENT}, {MAGIC}) selected by w<=32')
     # collision path
@@ -369,6 +368,34 @@ def _minmax(ir: lx.IR) -> Optional[Tuple[str, str, str]]:
     return None
 
 
+def _locate_fill(cu: CUnit) -> Dict[str, Any]:
+    """the sentinel fill of the flat window: the assignment `flat[..] = <fill value>` whose value is a local initialised with the
+    width-selected sentinel, in mem_decide_storage itself or in a static helper it calls once (then `call` is the call site in
+    mem_decide_storage and `bind` maps the helper's parameters to the argument texts)."""
+    found = []
+    for fname in cu.funcs:
+        for n in walk(cu.body(fname)):
+            if is_assign(n):
+                m = _mem_of(strip(n['inner'][0]))
+                rhs = strip(n['inner'][1])
+                if m and m[0] == 'flat' and rhs.get('kind') == 'DeclRefExpr':
+                    var = rhs['referencedDecl']['name']
+                    decl = [d for d in walk(cu.body(fname)) if d.get('kind') == 'VarDecl' and d.get('name') == var and d.get('inner')]
+                    if decl and 'GARBAGE_SENTINEL' in cu.src_of(decl[0]) and 'FLAT_GARBAGE_MAGIC' in cu.src_of(decl[0]):
+                        found.append((fname, n, decl[0]))
+    if len(found) != 1:
+        raise AnalysisError(f'C07: expected exactly one sentinel fill of the flat window, found {[f for f, _, _ in found]}')
+    fname, assign, decl = found[0]
+    out: Dict[str, Any] = dict(fn=fname, assign=assign, decl=decl, call=None, bind={})
+    if fname != 'mem_decide_storage':
+        sites = [c for c in walk(cu.body('mem_decide_storage')) if c.get('kind') == 'CallExpr' and callee(c) == fname]
+        if len(sites) != 1:
+            raise AnalysisError(f'C07: the fill helper {fname} is not called exactly once from mem_decide_storage')
+        out['call'] = sites[0]
+        out['bind'] = {p_: cu.src_of(a).replace('->', '.') for p_, a in zip(cu.params(fname), call_args(sites[0]))}
+    return out
+
+
 def rule_copyin(rep: Report, cu: CUnit) -> None:
     rep.rule('C07.COPYIN', 'mem_decide_storage builds the flat window in this order: sentinel fill of the whole window, '
              'zero fill of every segment clamped to the window, copy of every allocated page intersected with every '
@@ -376,11 +403,10 @@ def rule_copyin(rep: Report, cu: CUnit) -> None:
     body = cu.body('mem_decide_storage')
     fname = 'mem_decide_storage'
     order: List[Tuple[str, int]] = []
+    fl = _locate_fill(cu)
+    fill_at = fl['call'] if fl['call'] is not None else fl['assign']
+    order.append(('fill', fill_at['range']['begin'].get('offset', 0)))
     for n in walk(body):
-        if is_assign(n):
-            m = _mem_of(strip(n['inner'][0]))
-            if m and m[0] == 'flat' and cu.src_of(n['inner'][1]) == 'garbage_fill':
-                order.append(('fill', n['range']['begin'].get('offset', 0)))
         if n.get('kind') == 'CallExpr' and callee(n) in ('memset', 'memcpy'):
             order.append((callee(n), n['range']['begin'].get('offset', 0)))
     kinds = [k for k, _ in sorted(order, key=lambda t: t[1])]
@@ -427,12 +453,8 @@ def rule_copyin(rep: Report, cu: CUnit) -> None:
             if isinstance(cur, dict) and cur.get('kind') in ('ForStmt', 'WhileStmt', 'DoStmt'):
                 out.append(cur)
         return list(reversed(out))
-    targets: Dict[str, dict] = {}
+    targets: Dict[str, dict] = {'fill': fl['assign']}
     for n in walk(body):
-        if is_assign(n):
-            m = _mem_of(strip(n['inner'][0]))
-            if m and m[0] == 'flat' and cu.src_of(n['inner'][1]) == 'garbage_fill':
-                targets['fill'] = n
         if n.get('kind') == 'CallExpr' and callee(n) in ('memset', 'memcpy'):
             targets[callee(n)] = n
     for kind, bounds in expected_bounds.items():
@@ -454,7 +476,10 @@ def rule_copyin(rep: Report, cu: CUnit) -> None:
                         and lx.show(ci[2][0]) == var
                         and isinstance(inc, dict) and inc.get('kind') == 'UnaryOperator' and inc.get('opcode') == '++'
                         and cu.src_of(inc['inner'][0]) == var)
-            got.append(lx.show(ci[2][1]) if ok_shape else f'?{cu.src_of(lp)[:50]}')
+            bound_txt = lx.show(ci[2][1]) if ok_shape else f'?{cu.src_of(lp)[:50]}'
+            if kind == 'fill':
+                bound_txt = fl['bind'].get(bound_txt, bound_txt)          # a helper's parameter reads as the argument passed
+            got.append(bound_txt)
             exits = []
             for x in walk(lbody) if isinstance(lbody, dict) else []:
                 k = x.get('kind')
